@@ -34,7 +34,8 @@ def output(args, tikz_code):
     output_type = args.output_type
 
     if output_type is None:
-        if args.output.name == "-" or args.output.name.endswith(".tex"):
+        # argparse.FileType opens "-" as the standard stream, whose name is "<stdout>"
+        if args.output.name in ("-", "<stdout>") or args.output.name.endswith(".tex"):
             output_type = "tikz"
         elif args.output.name.endswith(".pdf"):
             output_type = "pdf"
